@@ -627,6 +627,9 @@ def c13(tier, seed):
         scenario("cat_x_mr", [cat("A", 2), mr("B", 3)], weighted=False),
         scenario("cat_x_cat_y", [cat("A", 2), cat("B", 3)], **y),
         scenario("mr_x_cat_y", [mr("A", 2), cat("B", 3)], **y),
+        scenario("cat_x_mr.ov", [cat("A", 3, miss=[2]), mr("B", 3)], overlaps=True, weighted=False),
+        scenario("cat_x_mr.ovw", [cat("A", 2), mr("B", 2)], overlaps=True),
+        scenario("mr_x_mr.ov", [mr("A", 2), mr("B", 2)], overlaps=True, weighted=False),
     ]
     pws = [None, {"alpha": [0.05, 0.1], "only_larger": False}, {"alpha": [0.01]},
            {"alpha": [0.2, 0.05], "only_larger": True}, {"alpha": [0.5], "only_larger": False}]
